@@ -37,6 +37,14 @@ class _Counter:
         self.next = {}
 
     def new(self, table):
+        if not self.sorted:
+            # unsorted element labels: any unused label, so that table order != index order
+            used = self.next.setdefault(("used", table), set())
+            while True:
+                cand = self.rng.randrange(0, 40)
+                if cand not in used:
+                    used.add(cand)
+                    return cand
         cur = self.next.get(table)
         if cur is None:
             cur = self.rng.choice([0, 0, 0, 2, 5, 11])
